@@ -390,8 +390,9 @@ fn pool(profile: &str, rng: &mut Rng, tok: u64) -> Vec<u8> {
     }
     match rng.below(base as u64) {
         0 => wire::key_only(op::GET, KEY, 0, opq).bytes(),
-        1 => wire::set_like(op::SET, KEY, &rng.bytes(2), rng.next() as u32 % 8, ttl, 0, opq).bytes(),
-        2 => wire::set_like(op::SET, KEY, &rng.bytes(2), 1, ttl, if cas == 0 { tok } else { cas }, opq).bytes(),
+        // now and then the very bytes the initial item holds (a same-value refresh)
+        1 => wire::set_like(op::SET, KEY, &(if rng.chance(1, 3) { b"5".to_vec() } else { rng.bytes(2) }), rng.next() as u32 % 8, ttl, 0, opq).bytes(),
+        2 => wire::set_like(op::SET, KEY, &(if rng.chance(1, 3) { b"5".to_vec() } else { rng.bytes(2) }), 1, ttl, if cas == 0 { tok } else { cas }, opq).bytes(),
         3 => wire::key_only(op::DELETE, KEY, *rng.pick(&[0u64, 0, tok, 99]), opq).bytes(),
         4 => wire::set_like(op::ADD, KEY, b"7", 2, ttl, 0, opq).bytes(),
         5 => wire::set_like(op::REPLACE, KEY, b"8", 3, ttl, cas, opq).bytes(),
